@@ -101,8 +101,11 @@ CLAIMED = {
               "the first reserved day, the end within the 24 hours after the last reserved day's midnight, a backward start within the first "
               "reserved day; milestones, completed and summary tasks reserve nothing; user-fixed dates of non-milestone leaves are returned "
               "unchanged. Hypotheses: membership flags describe the WBS, every clock reading of one calc lies on one calendar day; backward: no "
-              "user-fixed dates. " + LOOPS_TIE + PASS_TIE + LOOPS_TIE + SCHED_TIE),
-        design='6 (C04)', technique='Lean 4 proof (fill-loop specification + per-task placement invariant) + differential correspondence'),
+              "user-fixed dates. Time in the model is exact (rational): a remainder whose share of a day is below the microsecond a datetime resolves "
+              "(float dust, 2^-40 units) makes the code's end/start coincide with a midnight and puts a reservation outside [start day, end) - "
+              "known finding KF-F1-C04, detected by the monitors on dedicated cases of the stream (the model is not consulted for them). "
+              + LOOPS_TIE + PASS_TIE + SCHED_TIE),
+        design='6 (C04), 12.4', technique='Lean 4 proof (fill-loop specification + per-task placement invariant) + differential correspondence'),
     'C06': dict(
         text=("PARTIAL / split. The Lean model is a function, so purity and determinism of the MODEL hold by construction; that the implementation "
               "behaves as this function - input WBS and tasks untouched (snapshot through every public getter), result a separate WBS with the same "
